@@ -5,7 +5,7 @@ import z3
 from .vals import *  # noqa
 from .ctx import Ctx
 from .exec import Exec
-from . import libnp, libfile, strings, builtins, headers, libos  # noqa: F401  (register models)
+from . import libnp, libfile, strings, builtins, headers, libos, pool  # noqa: F401  (register models)
 from .vc import discharge, veq
 from .repo import ast_sha
 
@@ -139,9 +139,17 @@ def run_task(task, repo, use_cvc5=True):
     res.calls = sorted(calls)
     res.solver_s = ctx.solver_s
     # discharge
+    # once the task has a refuted obligation (the verdict is 'violation' whatever the others say) or several undecided ones
+    # (the verdict is 'undecided' at best) the remaining obligations get a reduced budget
+    n_ref = n_unk = 0
     for ob in ctx.obligs:
         ob.task = task.name
-        discharge(ob, use_cvc5=use_cvc5)
+        if n_ref or n_unk >= 3:
+            discharge(ob, use_cvc5=False, z3_ms=2500, fast=True)
+        else:
+            discharge(ob, use_cvc5=use_cvc5)
+        n_ref += ob.status == "refuted"
+        n_unk += ob.status == "unknown"
         res.solver_s += ob.ms / 1000
     # aggregate by name: an obligation is proved when proved on every path
     agg = {}
